@@ -91,21 +91,15 @@ Definition mon (m : mst) (o : op) (out : list obs) : mst * verdict :=
       match sender_known m p with
       | None => (advance m o (reg m), check (eqb_list eqb_res (results out) []) CL_DELETE ++ quiet out)
       | Some pe =>
-          let foreign := match fa_dev (rc_cli c), p_addr pe with
-                         | Some d, Some a => negb (N.eqb d a)
-                         | Some _, None => true
-                         | None, _ => false
-                         end in
           match remote_feature pe (rc_cli c), local_feature (w m) (rc_srv c) with
           | Some (en, rf), Some sf =>
+              (* the addressed pair: the entry of THIS connection with the named client address (device
+                 defaulted to the sender's, SPINE 7.4.4) on the named server feature.  Entries of other
+                 connections are never touched, whatever address the call names - also when another
+                 peer announces the same device address or none. *)
               let ca := default_dev pe (rc_cli c) in
-              let hit := fun x : sentry => eqb_faddr (s_cli x) ca && eqb_srv (s_srv x) (lf_ent sf, lf_id sf) in
-              if foreign then
-                (* a delete naming another device's address: outcome not prescribed by the
-                   property; follow what was observed *)
-                let ok := eqb_list eqb_res (results out) (expect_result p ctr ack false) in
-                (advance m o (if ok then filter (fun x => negb (hit x)) (reg m) else reg m), [])
-              else if existsb hit (reg m) then
+              let hit := fun x : sentry => N.eqb (s_ski x) p && eqb_faddr (s_cli x) ca && eqb_srv (s_srv x) (lf_ent sf, lf_id sf) in
+              if existsb hit (reg m) then
                 (advance m o (filter (fun x => negb (hit x)) (reg m)),
                  check (eqb_list eqb_res (results out) (expect_result p ctr ack false)) CL_DELETE ++
                  check (eqb_list eqb_obs_event (filter is_sub_event out) [ev_reg EvSub ChRemove p en (rf_addr en rf) sf]) CL_EVENT ++
@@ -115,7 +109,7 @@ Definition mon (m : mst) (o : op) (out : list obs) : mst * verdict :=
                  check (eqb_list eqb_res (results out) (expect_result p ctr ack true)) CL_DELETE ++ quiet out)
           | _, _ =>
               (advance m o (reg m),
-               if foreign then [] else check (eqb_list eqb_res (results out) (expect_result p ctr ack true)) CL_DELETE ++ quiet out)
+               check (eqb_list eqb_res (results out) (expect_result p ctr ack true)) CL_DELETE ++ quiet out)
           end
       end
   | SetData e f fn v =>
